@@ -905,11 +905,13 @@ Proof. intros. eapply applys_rel; eauto using adj_zero, adj_neg, adj_inf. Qed.
 
 (* which zero test decides about implicit columns / rows in the two LPs for a call of the rational interface *)
 Definition nzr_of (o : qop) : dy -> bool :=
-  match o with QAddRows false _ | QAddCols false _ => fun _ => true | _ => dnz end.
+  match o with QAddRows false _ | QAddCols false _ | QAddRow true _ | QAddCol true _ => fun _ => true | _ => dnz end.
 Definition nzq_of (o : qop) : Q -> bool :=
   match o with QAddRow true _ | QAddCol true _ => fun _ => true | _ => qnz end.
 Lemma rap_of_eq o : rap_of o = papply dzero dneg (nzr_of o) dinf.
 Proof. destruct o; try reflexivity; destruct g; reflexivity. Qed.
+Lemma vdim_all_map {A B} (f : A -> B) (v : svec A) : vdim (fun _ => true) (svec_map f v) = vdim (fun _ => true) v.
+Proof. induction v as [|p v IH]; simpl; auto. now rewrite IH. Qed.
 Lemma qap_of_eq o : qap_of o = papply qzero Qopp (nzq_of o) (d2q dinf).
 Proof. destruct o; try reflexivity; destruct g; reflexivity. Qed.
 
@@ -956,7 +958,7 @@ Section Sync.
 
   (* the calls of the rational interface for which the two LPs provably stay related *)
   Definition vd_ok (g : bool) (v : svec Q) : Prop :=
-    vdim dnz (svec_map (rnd RConv) v) = vdim (if g then (fun _ => true) else qnz) v.
+    if g then True else vdim dnz (svec_map (rnd RConv) v) = vdim qnz v.
   Definition benign_q (s : state) (q : qlp) (qo : qop) : Prop :=
     match qo with
     | QAddRow g (_, _, v) => vd_ok g v
@@ -1002,14 +1004,14 @@ Section Sync.
     destruct qo as [g [[a b] v]|g rs|g [[[o a] b] v]|g cs|i [[a b] v]|j [[[o a] b] v]|i x|xs|i x|xs|xs|i a b|a b|j x|xs|j x|xs|j a b|a b|j x|xs|g i j x
                     |i|j|perm|perm|idx|idx|a b|a b| ]; cbn [qprims qrprims].
     - (* QAddRow *) constructor; [|constructor]. constructor; [apply rs_rnd_rel|].
-      simpl in Hb. destruct g; exact Hb.
+      simpl in Hb. destruct g; [apply vdim_all_map|exact Hb].
     - (* QAddRows *) destruct g.
       + simpl in Hb. eapply Forall2_map_same_in; [exact Hb|]. intros [[a b] v] Hv. constructor; [apply rs_rnd_rel|exact Hv].
       + pose proof (prims_ok_rows_nodup _ _ _ Hok) as Hn.
         eapply Forall2_map_same_in; [exact Hn|]. intros [[a b] v] Hv. constructor; [now apply rs_rnd_clean_rel|].
         apply vdim_all_clean.
     - (* QAddCol *) simpl in Hb. destruct Hb as [Hv Hs]. destruct g.
-      + constructor; [|constructor]. constructor; [|exact Hv].
+      + constructor; [|constructor]. constructor; [|apply vdim_all_map].
         simpl. split; [|split; [apply rnd_adj|split; [apply rnd_adj|apply sv_rnd]]].
         unfold applys. simpl. rewrite (Hs eq_refl). apply obj_g_adj.
       + constructor; [|constructor]. constructor; [apply cs_rnd_rel|exact Hv].
